@@ -448,6 +448,17 @@ func opScan(r *rand.Rand, n int, tier, mix string) {
 			if r.Intn(4) == 0 {
 				post += "tail without eol"
 			}
+			if r.Intn(6) == 0 {
+				// a creation section naming a goroutine that took part in no operation: an error, never a misattribution
+				p := r.Intn(len(d.Creations) + 1)
+				bogus := dRaceCreation{GID: 900000 + r.Intn(1000), Running: r.Intn(2) == 0, Frames: g.raceFrames(1 + r.Intn(2))}
+				cs := append(append(append([]dRaceCreation{}, d.Creations[:p]...), bogus), d.Creations[p:]...)
+				bad := dRace{Ops: d.Ops, Creations: cs}
+				txt := pre + printRace(bad) + post
+				emitScan(id, []byte(txt), genSched(r, len(txt)), "eof", false, "race-unknown",
+					sexpGoroutines(expRace(dRace{Ops: d.Ops, Creations: d.Creations[:p]})), fmt.Sprintf("%d,%d", len(pre), 0))
+				continue
+			}
 			txt := pre + printRace(d) + post
 			emitScan(id, []byte(txt), genSched(r, len(txt)), "eof", false, "race", sexpGoroutines(expRace(d)), fmt.Sprintf("%d,%d", len(pre), len(post)))
 		case "c02": // streams: junk / dumps / race reports interleaved
